@@ -59,11 +59,14 @@ def _run(level, cfg, events, var, perm):
                                              place=var.get("place", "call"),
                                              async_callbacks=var.get("async_callbacks", False),
                                              flavours=var.get("flavours"))
-    return retryenv.run_scenario(cfg, events, entry=var["entry"], perm=perm,
+    obs = retryenv.run_scenario(cfg, events, entry=var["entry"], perm=perm,
                                  place=var.get("place", "call"),
                                  async_callbacks=var.get("async_callbacks", False),
                                  wall=var.get("wall", "jump"), atimeout=var.get("atimeout", False),
-                                 loop=var.get("loop", False), flavours=var.get("flavours"))
+                                 loop=var.get("loop", False), flavours=var.get("flavours"),
+                                 entry2=var.get("entry2"))
+    # the decorator goes through Policy.call, which classifies the raised exception once more
+    return drop_bclassify(obs) if var.get("entry2") else obs
 
 
 def _full(level, cfg):
@@ -264,10 +267,14 @@ WALL = [{"entry": "Retry", "wall": "jump", "wallgroup": "s"},
         {"entry": "AsyncRetry", "wall": "jump", "wallgroup": "a"},
         {"entry": "AsyncRetry", "wall": "frozen", "wallgroup": "a"}]
 
+# policy objects of different kinds sharing one budget (every 3rd behaviour)
+SHARED = [{"entry": "Retry", "entry2": "decorator", "place": "ctor", "every": 5},
+          {"entry": "AsyncRetry", "entry2": "async-decorator", "place": "ctor", "every": 5, "permute": True}]
+
 for _p in ("C01", "C02", "C03", "C04", "C05", "C10", "C11", "C13", "C14", "C16"):
     profile(_p, mc=f"RetryMC_{_p}.cfg", export=f"RetryMC_{_p}x.cfg",
             variants=WALL + TIMEOUT_SAMPLED if _p == "C02" else (FOUR + TIMEOUT_VARIANTS if _p in ("C13", "C01") else
-                                               (FOUR[:3] if _p == "C10" else FOUR)),
+                                               (FOUR[:3] + SHARED if _p == "C10" else FOUR)),
             n_random={"quick": 1500, "thorough": 30000},
             exports_extra={"C10": ["RetryMC_C10y.cfg"], "C05": ["RetryMC_C05y.cfg"]}.get(_p, []))
 
